@@ -32,7 +32,7 @@ def r1_framing(ctx: Ctx) -> None:
         ws = _writes(fn.node)
         ok = len(ws) == 1 and isinstance(ws[0].args[0], ast.Constant) and ws[0].args[0].value == lit and ws[0] in [
             s.value for s in fn.node.body if isinstance(s, ast.Expr)]
-        ctx.check(ok, f"IPSWriter.{meth}", f"writes exactly {lit!r} once, unconditionally; found {[unparse(w) for w in ws]}")
+        ctx.check(ok, f"IPSWriter.{meth}", f"writes exactly {lit!r} once, unconditionally; found {[unparse(w) for w in ws]}", fact=bool(ws))
     h = ctx.repo.func(W, "IPSWriter.write_block_header")
     blk, addr = h.params()[1], h.params()[2]
     ws = _writes(h.node)
